@@ -41,7 +41,8 @@ func run(c hx.Config) error {
 		return err
 	}
 	rng := hx.NewRng(c.Seed)
-	nopt := len(storex.OptionSets())
+	nopt := storex.NOptions()
+	nfixed := len(storex.OptionSets())
 	reps := 1
 	if c.Thorough() {
 		reps = 4
@@ -61,6 +62,33 @@ func run(c hx.Config) error {
 					h.Conv(0, rng.Intn(nopt), o)
 					h.Conv(1, 0, o)
 					emit(h, o, "H1")
+				}
+				// H5: registries. The child (and a composite holding it, when the type has one) is converted under a
+				// private registry that gives it an ID, then everything again with default options, then under a
+				// registry that names every schema, then with default options again.
+				h = storex.NewHist(b, false)
+				if h.Step(0, m, rep, o) {
+					for _, w := range []string{"Or", "And", "Optional", "Array", "Slice"} {
+						if h.Step(1, w, 0, o) {
+							break
+						}
+					}
+					n := len(h.Live)
+					h.Conv(1, 0, o)
+					for j := 0; j < n; j++ {
+						h.Conv(j, nfixed, o)
+					}
+					for j := 0; j < n; j++ {
+						h.Conv(j, 0, o)
+					}
+					for j := n - 1; j >= 0; j-- {
+						h.Conv(j, nfixed+1, o)
+					}
+					h.Conv(n-1, nfixed+2, o)
+					for j := 0; j < n; j++ {
+						h.Conv(j, rng.Intn(nfixed), o)
+					}
+					emit(h, o, "H5")
 				}
 				// H2: two siblings
 				h = storex.NewHist(b, false)
